@@ -135,7 +135,7 @@ func (it *Interp) storeGet(v *StoreView, key *StrV) *StrV {
 				return nil
 			}
 			val := Select(s.val0, ka)
-			return &StrV{T: val}
+			return &StrV{T: val, FromStore: true}
 		}
 	}
 	return nil
